@@ -28,6 +28,7 @@ type InvCase struct {
 	Kind      string `json:"kind"`
 	Pos       string `json:"pos"` // "tip" (extends the best chain) | "reorg" (heavier side block that would trigger a reorganisation)
 	Broadcast bool   `json:"broadcast"`
+	Download  bool   `json:"download,omitempty"` // deliver the mutant the way the fast-download path does (pid "download", not broadcast)
 	Seed      uint64 `json:"seed"`
 	Index     int    `json:"index"`
 }
@@ -261,7 +262,12 @@ func RunInvalid(dir string, t *Tree, cs InvCase) InvRes {
 	}
 	addrs := Addrs(append(blocks, mut))
 	s0 := TakeSnap(n, txs, addrs, true)
-	err := n.Deliver(mut, cs.Broadcast, "peerEvil")
+	pid := "peerEvil"
+	bc := cs.Broadcast
+	if cs.Download {
+		pid, bc = "download", false
+	}
+	err := n.Deliver(mut, bc, pid)
 	if err != nil {
 		res.DeliverErr = err.Error()
 	}
